@@ -69,6 +69,7 @@ def run(ctx: common.Run):
     check_control_value_equality(ctx, cirq)
     check_predicates_pure(ctx, cirq)
     check_commutes_tolerance(ctx, cirq)
+    check_commutes_pauli_copies(ctx, cirq)
     check_operation_predicates(ctx, cirq, n * 6)
 
 
@@ -641,6 +642,28 @@ def check_commutes_tolerance(ctx, cirq):
             if got is not None and bool(got) != want:
                 ctx.report_witness(f'predicate:commutes:tolerance:{form}', f'cirq.commutes on {form} answers {got} although the largest entry of ab - ba is {dev:.3g} and atol is {atol:.3g}',
                                    {'lines': [{'a': repr(x), 'b': repr(y), 'atol': atol}], 'impl_out': [bool(got)], 'spec_out': [want], 'theorem_or_correspondence': 'commutes_sound'})
+
+
+def check_commutes_pauli_copies(ctx, cirq):
+    """commutation of two Pauli gate objects does not depend on which Python objects they are: X**1, a deep copy and a JSON round trip
+    of a Pauli commute with it (and anticommuting pairs still do not commute)"""
+    import copy
+
+    q = cirq.LineQubit(0)
+    paulis = [cirq.X, cirq.Y, cirq.Z]
+    for i, P in enumerate(paulis):
+        twins = [('P**1', P ** 1), ('deepcopy', copy.deepcopy(P)), ('json', cirq.read_json(json_text=cirq.to_json(P))), ('by_index', cirq.Pauli.by_index(i))]
+        for j, O in enumerate(paulis):
+            for tname, T in ([(f'{n} of other', t) for n, t in (('P**1', O ** 1), ('deepcopy', copy.deepcopy(O)))] if i != j else twins):
+                u1, u2 = cirq.unitary(P), cirq.unitary(T)
+                want = bool(np.allclose(u1 @ u2, u2 @ u1))
+                for form, x, y in (('gates', P, T), ('gates-swapped', T, P), ('operations', P(q), T(q))):
+                    got = cirq.commutes(x, y, default=None)
+                    ctx.count('check', f'commutes-pauli-copy:{form}')
+                    ctx.case(['commutes-pauli-copy', form, repr(P), tname], want)
+                    if got is not None and bool(got) != want:
+                        ctx.report_witness(f'predicate:commutes:pauli-copy:{form}', f'cirq.commutes({x!r}, {tname}) answers {got} although the matrices ' + ('commute' if want else 'do not commute'),
+                                           {'lines': [{'a': repr(x), 'b': repr(y), 'twin': tname}], 'impl_out': [bool(got)], 'spec_out': [want], 'theorem_or_correspondence': 'commutes_sound'})
 
 
 def check_predicates_pure(ctx, cirq):
